@@ -294,6 +294,20 @@ func TestC10_Injection(t *testing.T) {
 			tx = uni.MakeTx(fsender, apphist.ChainID, injNonce, msg)
 			validSig = true
 		}
+		// is the payload malformed by the statement's standards (the reference model's structural rules, not the
+		// application's)? then a zero code is a violation whoever sent it. (last use of the prefix model)
+		malformedWhy := ""
+		if class == "member-payload" || class == "signed-mutant" || class == "foreign" {
+			if d := apphist.Decode(tx); d.OK && string(d.Msg.ChainId) == apphist.ChainID {
+				switch p := pre.M.DeliverTx(d); p.Note {
+				case "malformed keypers", "bad validator key", "bad encryption key", "length mismatch", "malformed receivers",
+					"invalid gamma", "malformed accused", "malformed accusers", "no payload":
+					if !p.Allows(apphist.CodeOK) {
+						malformedWhy = p.Note
+					}
+				}
+			}
+		}
 		mode := rapid.SampledFrom([]string{"deliver", "check", "both"}).Draw(rt, "mode")
 		if class == "member-payload" || class == "signed-mutant" {
 			mode = "deliver"
@@ -341,6 +355,9 @@ func TestC10_Injection(t *testing.T) {
 		if class == "member-payload" || class == "signed-mutant" {
 			var resp abcitypes.ResponseDeliverTx
 			_ = resp.Unmarshal([]byte(outB[injAt].Data))
+			if resp.Code == 0 && malformedWhy != "" {
+				fail("malformed-payload-code-zero", "DeliverTx answered code 0 to a correctly signed transaction whose payload is malformed (%s)\nhistory: %s", malformedWhy, descCalls(callsB))
+			}
 			if resp.Code != 1 {
 				// executed (or acknowledged as seen): not a refused transaction, nothing to judge
 				rec.Case(fmt.Sprintf("%s|pos=%d|%s-not-refused|%x", c.DescString(), pos, class, tx), false, "class:"+class+"-not-refused")
